@@ -5,9 +5,8 @@ All theorems are about the definitions of `Model/Layout.lean` that `drv_c07` exe
 configuration in the modelled option space and every list of parameter shapes (any number of
 parameters, any ranks and dimensions), and any number of updates.
 
-Not proved here (decided on executed inputs only): that `sharded_update_fn`'s model `shardedStep`
-leaves the sharded layout fixed — the driver evaluates `shardedStep` three times on every sharded case
-and the harness requires `post_equal`; exception *messages*; values.
+Decided on executed inputs only: exception *messages*; values; that the hand-written model is the code
+(differential correspondence run of the harness).
 -/
 import PrecondVerif.Lemmas.Layout
 
@@ -119,6 +118,27 @@ theorem sharded_init_no_internal_error (c : Cfg) (ps : List (List Nat)) (e : Err
     split at h
     · cases h; rfl
     · cases h
+
+/-- **Sharded layout is a fixed point of update** (`sharded_update_fn`): explanatory rejection (LOBPCG
+size check) or exactly the initial sharded layout — global stacked statistics / preconditioners keep
+their padded shapes, local entries their layout. `batch_axis_name` is a pmap-mode option and is assumed
+unset in sharded mode. -/
+theorem sharded_layout_fixpoint (c : Cfg) (ps : List (List Nat)) (L : ShardedLayout)
+    (hb : c.batchAxis = false) (hpos : ∀ d ∈ ps.flatMap (statDims c), 0 < d)
+    (h : shardedInit c ps = .ok L) :
+    shardedStep c ps L = .ok L ∨ ∃ cls, shardedStep c ps L = .error (.reject .update cls) := by
+  have hq : c.quant2 = false := by simp [Cfg.quant2, hb]
+  rw [shardedStep_init c ps L hq hpos h]
+  cases hr : rootReject c (globalDims c ps).2 .update with
+  | none => left; rfl
+  | some e =>
+    right
+    unfold rootReject at hr
+    split at hr
+    · cases hr; exact ⟨_, rfl⟩
+    · split at hr
+      · cases hr; exact ⟨_, rfl⟩
+      · cases hr
 
 /-- SM3: rank-0 parameters are rejected explicitly, otherwise the layout is a fixed point of update -/
 theorem sm3_layout_fixpoint (ps : List (List Nat)) :
